@@ -55,7 +55,7 @@ ASSUMPTIONS = [
     'set iteration order of _synchronize is that of PYTHONHASHSEED=0',
 ]
 TRUSTED = ['pbt/fakezk.py', 'pbt/cachefs.py', 'PyYAML safe loader']
-BUDGET = {'quick': 1600, 'thorough': 32000}
+BUDGET = {'quick': 6400, 'thorough': 96000}
 
 PROIDS = ['treadmld', 'foo']
 APPS = ['web', 'api.v2', 'db-1']
